@@ -200,6 +200,54 @@ def onSpread (t : Ty) : Except Err Ty :=
   | .cons a _ => .ok a
   | .nil => .error .fatal
 
+/-- a list literal with spread items `[*e1, x, *e2]`: the resolver visits the items in order (post-order: the expression of a spread
+    item, then `on_spread`), then `on_list` sees the element type for a spread item and the own type for a plain one -/
+def inferListSpread (ct : ClassTable) (Γ : Env) : List (Bool × Expr) → Bool → R (List Ty)
+  | [], s => (.ok [], s)
+  | (sp, e) :: rest, s =>
+    (infer ct Γ e s).bind fun t s =>
+      match (if sp then onSpread t else .ok t) with
+      | .error er => (.error er, s)
+      | .ok t' => (inferListSpread ct Γ rest s).bind fun ts s => (.ok (t' :: ts), s)
+
+def onListSpread (ct : ClassTable) (Γ : Env) (items : List (Bool × Expr)) (s : Bool) : R Ty :=
+  (inferListSpread ct Γ items s).bind fun ts s => onList ts s
+
+/-! ## attributes of user generic classes -/
+
+/-- `templates.Class.prop(actual_klass)` (helper/template.py:70-90): the declared type of an attribute of a generic class, its class
+    type variables resolved against the receiver — `unpack_templates(prop=…)`, `unpack_symbols(klass=actual)`,
+    `unpack_templates(klass=schema)`, `make_updates`, `apply` on a COPY of the declaration (`to_temporary`: the model is a pure
+    function, the declaration is never written). Root 4 = the `prop` key. -/
+def propOf (declared schemaKlass actualKlass : Ty) : Ty :=
+  resolveTemplates 4 declared (expandTy [0] schemaKlass) (expandTy [0] actualKlass)
+
+mutual
+/-- the specification: every occurrence of a class type variable, at any depth, replaced by the receiver's argument for it -/
+def substTy (σ : List (Str × Ty)) : Ty → Ty
+  | .tvar n => (lookup n σ).getD (.tvar n)
+  | .list t => .list (substTy σ t)
+  | .dict k v => .dict (substTy σ k) (substTy σ v)
+  | .tuple ts => .tuple (substTys σ ts)
+  | .union ts => .union (substTys σ ts)
+  | .cls n ts => .cls n (substTys σ ts)
+  | t => t
+def substTys (σ : List (Str × Ty)) : Tys → Tys
+  | .nil => .nil
+  | .cons t ts => .cons (substTy σ t) (substTys σ ts)
+end
+
+/-- the declared attribute types of the generated generic classes (harness/c03_progs.py generic_deep_block): the type variables
+    `TK`, `TV` up to three levels deep -/
+def deepForms : List Ty :=
+  let k : Ty := .tvar ['T', 'K']
+  let v : Ty := .tvar ['T', 'V']
+  [.dict k (.list v), .list (.list v), .list (.tuple (.cons k (.cons v .nil))), .dict .str (.dict k v),
+   .dict k (.dict .str (.list v)), .tuple (.cons k (.cons (.list v) .nil)), .dict k v, v, .list v]
+
+/-- the type arguments the generator instantiates them with -/
+def deepArgs : List Ty := [.int, .str, .float, .bool, .list .int]
+
 /-! ## which handlers of ProceduralResolver the Lean model follows -/
 
 /-- handlers with an arm of `infer` (Model/Infer.lean; the comment of each arm names them) -/
